@@ -18,6 +18,7 @@
    see DESIGN.md (known finding D17/D18 concern the human text only). *)
 From Coq Require Import NArith List Bool.
 From DudV Require Import Base.Bytes Base.Json Model.Fs Model.Cache Proofs.CacheDefs Proofs.StatusProofs Proofs.SameContents.
+From DudV Require Import Model.Render Proofs.RenderProofs.
 Import ListNotations.
 
 Theorem C05_iff :
@@ -80,3 +81,31 @@ Print Assumptions C05_same_contents_short_reads.
 Theorem C05_codec_ok : codec_ok.
 Proof. exact StatusProofs.codec_ok_holds. Qed.
 Print Assumptions C05_codec_ok.
+
+(* the human text (Model/Render.v = artifact.Status.String(), compared with the binary's text in
+   every status case of the correspondence runs): a file / link artifact is rendered with one of the
+   three "up-to-date" texts exactly when the flags say so ... *)
+Theorem C05_text_uptodate_iff :
+  forall s, In (render s) uptodate_texts <-> uptodate_flags s = true.
+Proof. exact render_file_uptodate_iff. Qed.
+Print Assumptions C05_text_uptodate_iff.
+
+(* ... a directory's count line consists of "up to date" labels only exactly when every leaf below
+   it is rendered up to date ... *)
+Theorem C05_text_dir_iff :
+  forall s, forallb is_ok_label (items s) = true <-> forallb uptodate_flags (leaves s) = true.
+Proof. exact render_dir_ok_iff. Qed.
+Print Assumptions C05_text_dir_iff.
+
+(* ... it does not depend on the iteration order of the children map ... *)
+Theorem C05_text_order_independent :
+  forall s s', sperm s s' -> render s = render s'.
+Proof. exact render_perm. Qed.
+Print Assumptions C05_text_order_independent.
+
+(* ... and the known anomaly (finding D17b): an empty directory that was never committed is
+   rendered exactly like an up-to-date one, so "all labels fine" does not imply ContentsMatch *)
+Theorem C05_text_empty_directory_refuted :
+  ~ (forall s, is_dirstatus s = true -> forallb is_ok_label (items s) = true -> st_cm s = true).
+Proof. exact render_dir_ok_implies_cm_refuted. Qed.
+Print Assumptions C05_text_empty_directory_refuted.
